@@ -466,7 +466,7 @@ def cases(tier, rng, escalate):
         for inp, stag, out in schedules(p, K, rng, exhaustive, 5):
             out = out if out is not None else run_impl(inp)
             yield dict(input=inp, tags=tags_of(p, inp, stag, src), nontrivial=nontrivial_of(inp, out))
-    nrand = 9000 if thorough else 900
+    nrand = 5000 if thorough else 900
     for i in range(nrand):
         ids = _Ids()
         simple = i % 4 == 0
